@@ -68,7 +68,7 @@ theorem skeleton_skipUnwanted_ok : Gen.skeleton_skipUnwanted = ["it.iter.Next"] 
 theorem skeleton_IteratorNext_ok :
     Gen.skeleton_IteratorNext = ["it.iter.Next", "it.skipUnwanted", "it.Refresh"] := rfl
 theorem skeleton_IteratorRefresh_ok :
-    Gen.skeleton_IteratorRefresh = ["it.iter.Close", "it.iter.Seek", "it.skipUnwanted"] := rfl
+    Gen.skeleton_IteratorRefresh = ["it.snap.db.ptrToItem", "it.iter.Close", "it.iter.Seek", "it.skipUnwanted"] := rfl
 theorem skeleton_IteratorSeek_ok :
     Gen.skeleton_IteratorSeek = ["it.iter.Seek", "it.skipUnwanted"] := rfl
 theorem skeleton_IteratorSeekFirst_ok :
@@ -98,7 +98,8 @@ theorem skeleton_collectionWorker_ok :
       "barrier.FlushSession"] := rfl
 theorem skeleton_Visitor_ok :
     Gen.skeleton_Visitor = ["defer", "tmpIter.Close", "barrier.Acquire", "defer", "barrier.Release",
-      "defer", "defer", "itr.Close", "send(wch)", "close"] := rfl
+      "m.store.GetRangeSplitItems", "m.ptrToItem", "tmpIter.Seek", "defer", "defer", "itr.Close", "itr.SeekFirst",
+      "itr.Seek", "send(wch)", "close"] := rfl
 theorem skeleton_deleteNode_ok : Gen.skeleton_deleteNode = ["s.softDelete", "s.findPath"] := rfl
 
 /-! ### the comparators on versions -/
